@@ -20,7 +20,7 @@ for cid in ids:
         "evidence_file": f"/verif/evidence/{cid}.json",
         "replay_cmd_template": f"./check {cid} --replay {{path}}",
         "engine": "lean4-proof+correspondence",
-        "level_claimed": {"category": "proof", "text": cfg["level_text"], "design_ref": cfg.get("design_ref", f"DESIGN.md section 6, {cid}")},
+        "level_claimed": {"category": cfg.get("category", "proof"), "text": cfg["level_text"], "design_ref": cfg.get("design_ref", f"DESIGN.md section 6, {cid}")},
         "level_note": cfg["level_note"],
         "technique": cfg.get("technique", "Lean 4 theorems about an executable model of the code; model tied to the Rust code by a differential correspondence check on every run"),
     })
